@@ -1,0 +1,12 @@
+//go:build !verif
+
+package verifhook
+
+// Enabled reports whether instrumentation points are compiled in.
+const Enabled = false
+
+// Point marks an instrumentation site. It does nothing without the `verif` build tag.
+func Point(site string) {}
+
+// Set installs a handler invoked at every Point. It does nothing without the `verif` build tag.
+func Set(handler func(site string)) {}
